@@ -230,3 +230,68 @@ func b2i(b bool) int {
 	}
 	return 0
 }
+
+// exhaustive emits ALL walks of length L over (highest holding level 0..3) x (outcome of every reset 0/1) for a
+// fixed list of configurations; several walks share one task as different alert IDs. The walks are split in
+// `slices` parts so that the parallel seeds of one check run share the work (slice = seed mod slices).
+func exhaustive(run func(id string, ops []string) bool, tier string, slice, slices int) bool {
+	L := 4
+	forms := []string{"s", "b"}
+	rss := []string{"111"}
+	type knob struct{ sco, scodur, norec int }
+	knobs := []knob{{1, 5, 0}, {0, 0, 1}}
+	if tier == "thorough" {
+		L = 5
+		rss = []string{"111", "010"}
+		knobs = []knob{{0, 0, 0}, {1, 0, 0}, {1, 5, 0}, {0, 0, 1}, {1, 5, 1}}
+	}
+	total := 1
+	for i := 0; i < L; i++ {
+		total *= 8
+	}
+	const perCase = 32
+	caseNo := 0
+	for _, form := range forms {
+		for _, rs := range rss {
+			for _, k := range knobs {
+				for start := 0; start < total; start += perCase {
+					caseNo++
+					if caseNo%slices != slice {
+						continue
+					}
+					ops := []string{fmt.Sprintf("cfg form=%s lv=111 rs=%s sco=%d scodur=%d norec=%d all=0 flap=0 lo=%s hi=%s hist=2",
+						form, rs, k.sco, k.scodur, k.norec, kit.F64(0.25), kit.F64(0.5))}
+					// step k of every walk of this case, interleaved
+					for step := 0; step < L; step++ {
+						for w := start; w < start+perCase && w < total; w++ {
+							code := w
+							for j := 0; j < step; j++ {
+								code /= 8
+							}
+							sym := code % 8
+							lvl, r := sym/2, sym%2
+							vec := []byte("000000")
+							for q := 1; q <= lvl; q++ {
+								vec[q-1] = '1' // every level up to the target holds: the downward search finds the next lower one
+							}
+							for q := 3; q < 6; q++ {
+								vec[q] = "01"[r]
+							}
+							tm := int64(1_000_000_000_000) + int64(step)*2500 // interval 5us: the third point of a run of equal levels is exactly at the interval
+							gid := fmt.Sprintf("w%d", w)
+							if form == "s" {
+								ops = append(ops, fmt.Sprintf("p %s %d %s", gid, tm, vec))
+							} else {
+								ops = append(ops, fmt.Sprintf("b %s %d %d:%s", gid, tm+1, tm, vec))
+							}
+						}
+					}
+					if !run(fmt.Sprintf("x%d", caseNo), ops) {
+						return false
+					}
+				}
+			}
+		}
+	}
+	return true
+}
